@@ -182,9 +182,10 @@ def write_replay(mod, tier, found, base_seed):
         pass
     if not reproduced:
         values = found['tape']
-    os.makedirs(os.path.join(VERIF, 'replays'), exist_ok=True)
+    replay_dir = os.environ.get('VERIF_REPLAY_DIR', os.path.join(VERIF, 'replays'))
+    os.makedirs(replay_dir, exist_ok=True)
     import hashlib
-    path = os.path.join(VERIF, 'replays', '%s-%d-%s.json' % (mod.PROP, found['seed'], hashlib.sha256(sig.encode()).hexdigest()[:6]))
+    path = os.path.join(replay_dir, '%s-%d-%s.json' % (mod.PROP, found['seed'], hashlib.sha256(sig.encode()).hexdigest()[:6]))
     with open(path, 'w') as f:
         json.dump({'property': mod.PROP, 'oracle': v['oracle'], 'signature': sig, 'engine': mod.META.get('engine'),
                    'tier': tier, 'seed': found['seed'], 'base_seed': base_seed, 'config': config, 'tape': values,
@@ -316,8 +317,11 @@ def write_evidence(prop_id, evidence):
         jsonschema.validate(json.loads(text), schema)
     except jsonschema.ValidationError as ex:
         print('HARNESS-WARNING evidence does not validate: %s' % str(ex)[:300])
-    os.makedirs(os.path.join(VERIF, 'evidence'), exist_ok=True)
-    with open(os.path.join(VERIF, 'evidence', '%s.json' % prop_id), 'w') as f:
+    # evidence of runs against a scratch copy (VERIF_REPO set) never overwrites the evidence of /repo itself
+    default_dir = os.path.join(VERIF, 'evidence') if os.path.realpath(REPO) == '/repo' else '/tmp/verif-scratch-evidence'
+    edir = os.environ.get('VERIF_EVIDENCE_DIR', default_dir)
+    os.makedirs(edir, exist_ok=True)
+    with open(os.path.join(edir, '%s.json' % prop_id), 'w') as f:
         f.write(text + '\n')
 
 
